@@ -75,6 +75,14 @@ func TestC39(t *testing.T) {
 	m.Gate("C_control_keygen_agrees", 3, "ssh-keygen accepts sampled harness-built control files (plain and encrypted)")
 	m.Gate("C_mustreject_judged", nC/8, "files whose private components contradict the public key by construction")
 	m.Gate("C_class:ed-halves-allB", 6, "Ed25519 seed(A)+pub(B) files presented")
+	for _, cv := range []string{"ec256", "ec384", "ec521"} {
+		for _, sc := range scalarRangeClasses {
+			m.Gate("C_class:"+cv+"-"+sc, 12, "ECDSA scalar range class presented under none/aes256-ctr/aes256-cbc")
+		}
+	}
+	for _, rc := range []string{"rsa-p-foreign-crt-consistent", "rsa-d-plus-lcm", "rsa-e-one-d-one", "rsa-e-even-outer-too", "rsa-n-not-pq", "rsa-d-wrong", "rsa-e-bad", "ed-halves-seedflip", "ed-halves-outerA"} {
+		m.Gate("C_class:"+rc, 12, "RSA/Ed25519 component class presented under all three protections")
+	}
 	m.Gate("C_accepted_through_monitor", nC/20, "accepted keys that went through sign/verify + outer-key comparison")
 }
 
@@ -147,8 +155,16 @@ func (h *c39) consistent(r *rand.Rand, key any, outer []byte, wit map[string]any
 			continue
 		}
 		if err != nil {
+			// an accepted key that cannot produce a signature is not a usable,
+			// internally consistent key
 			m.Count("accepted_key_sign_error", 1)
 			wit["sign_error"] = err.Error()
+			wit["sign_algorithm"] = algo
+			k := "accepted-key-cannot-sign:" + tt
+			if c, ok := wit["class"].(string); ok { // harness-built file: one key per corruption class
+				k += ":" + c
+			}
+			viol = append(viol, k)
 			continue
 		}
 		signed = true
@@ -310,7 +326,7 @@ func (h *c39) keygenToGo(i int64, r *rand.Rand) {
 	outcome := "same-key"
 	report := func(keys []string) {
 		for _, k := range keys {
-			if !strings.HasPrefix(k, "openssh-") && !strings.HasPrefix(k, "panic") {
+			if !globalKey(k) {
 				k = "keygen-written-key:" + k + ":" + kt.tag
 			}
 			m.Violation(k, wit)
@@ -332,8 +348,14 @@ func (h *c39) keygenToGo(i int64, r *rand.Rand) {
 			{"ParsePrivateKeyWithPassphrase", func() (any, error) { k, e := ssh.ParsePrivateKeyWithPassphrase(pemb, p); return nilIfNil(k), e }},
 		}
 	}
+	pemSnap, passSnap := bytes.Clone(pemb), bytes.Clone(pb)
 	run := func(c call) (key any, err error, panicked bool) {
 		pv, st := mon.Panics(func() { key, err = c.fn() })
+		if !bytes.Equal(pemb, pemSnap) || !bytes.Equal(pb, passSnap) {
+			m.Violation("parser-modified-its-input", map[string]any{"api": c.api, "pem_before": string(pemSnap), "passphrase_hex": mon.FullHex(passSnap)})
+			copy(pemb, pemSnap)
+			copy(pb, passSnap)
+		}
 		if pv != nil {
 			wit["api"], wit["panic"], wit["stack"] = c.api, fmt.Sprint(pv), mon.PanicSite(st)
 			m.Violation("panic-parsing-keygen-file:"+mon.PanicSite(st), wit)
@@ -479,6 +501,11 @@ func privEqual(key any, ps *fm.PrivSection) bool {
 	return false
 }
 
+// globalKey: violation keys that are already specific and are not prefixed per stream.
+func globalKey(k string) bool {
+	return strings.HasPrefix(k, "openssh-") || strings.HasPrefix(k, "panic") || strings.HasPrefix(k, "accepted-key-cannot-sign")
+}
+
 func nilIfNil(s ssh.Signer) any {
 	if s == nil {
 		return nil
@@ -585,13 +612,17 @@ func (h *c39) goToKeygen(i int64, r *rand.Rand) {
 	}
 	var blk *pem.Block
 	var err error
+	passIn := []byte(pass)
 	pv, st := mon.Panics(func() {
 		if pass == "" {
 			blk, err = ssh.MarshalPrivateKey(key, comment)
 		} else {
-			blk, err = ssh.MarshalPrivateKeyWithPassphrase(key, comment, []byte(pass))
+			blk, err = ssh.MarshalPrivateKeyWithPassphrase(key, comment, passIn)
 		}
 	})
+	if string(passIn) != pass {
+		m.Violation("marshal-modified-its-passphrase", map[string]any{"type": tag, "passphrase_hex": mon.FullHex([]byte(pass))})
+	}
 	m.Eval()
 	wit := map[string]any{"stream": "go2keygen", "type": tag, "comment": comment, "passphrase_hex": mon.FullHex([]byte(pass))}
 	if pv != nil {
@@ -662,7 +693,7 @@ func (h *c39) goToKeygen(i int64, r *rand.Rand) {
 		m.Violation("go-written-key-rejected-by-go:"+strings.TrimSuffix(tag, "-ptr"), wit)
 	} else {
 		for _, k := range h.sameKey(r, "ParseRawPrivateKey(WithPassphrase)", back, want, wit) {
-			if !strings.HasPrefix(k, "openssh-") && !strings.HasPrefix(k, "panic") {
+			if !globalKey(k) {
 				k = "go-written-key:" + k
 			}
 			m.Violation(k, wit)
@@ -699,7 +730,7 @@ func (h *c39) goToKeygen(i int64, r *rand.Rand) {
 				m.Violation("keygen-written-key:rejected:"+strings.TrimSuffix(tag, "-ptr"), w2)
 			} else {
 				for _, k := range h.sameKey(r, "ParseRawPrivateKey(WithPassphrase)", k2, want, w2) {
-					if !strings.HasPrefix(k, "openssh-") && !strings.HasPrefix(k, "panic") {
+					if !globalKey(k) {
 						k = "keygen-written-key:" + k + ":" + strings.TrimSuffix(tag, "-ptr")
 					}
 					m.Violation(k, w2)
@@ -744,10 +775,16 @@ func (h *c39) inconsistent(i int64, r *rand.Rand) {
 		err error
 	}
 	var results []res
+	pemSnap, passSnap := bytes.Clone(pemb), bytes.Clone(enc.pass)
 	call := func(api string, fn func() (any, error)) {
 		var k any
 		var e error
 		pv, st := mon.Panics(func() { k, e = fn() })
+		if !bytes.Equal(pemb, pemSnap) || !bytes.Equal(enc.pass, passSnap) {
+			m.Violation("parser-modified-its-input", map[string]any{"api": api, "pem_before": string(pemSnap), "passphrase_hex": mon.FullHex(passSnap)})
+			copy(pemb, pemSnap)
+			copy(enc.pass, passSnap)
+		}
 		if pv != nil {
 			w := copyWit(wit)
 			w["api"], w["panic"] = api, fmt.Sprint(pv)
